@@ -468,7 +468,10 @@ package iscp
 //@   after call Upstream).flush: owe = false
 //@   assert call FlushPolicy).IsFlush: held(u.mu) && arg0 == u.sendBufferPayloadSize % 4294967296
 //@   assert call Upstream).flush: mayFlush && unheld(u.mu)
-//@   loop 1 invariant !owe
+//@   ghostvar asked bool = true
+//@   after recv dpgCh: asked = false
+//@   after call FlushPolicy).IsFlush: asked = true
+//@   loop 1 invariant !owe && asked   // every accepted write is put to the flush policy in its own iteration, whatever it adds
 
 //@ func (*DataPointGroup).payloadSize
 //@   props C20
